@@ -1,6 +1,8 @@
 package main
 
 import (
+	"crypto/sha256"
+	"encoding/hex"
 	"fmt"
 	"go/ast"
 	"go/constant"
@@ -728,7 +730,9 @@ func clauseLabel(c *Clause) string {
 	if c.Label != "" {
 		return c.Label
 	}
-	return "l" + strconv.Itoa(c.Line)
+	// unlabelled clause: named by its text, not by its line (inserting a line above must not rename it)
+	h := sha256.Sum256([]byte(strings.Join(strings.Fields(c.Src), " ")))
+	return "u" + hex.EncodeToString(h[:4])
 }
 
 func (x *Exec) contractFor(fr *Frame) *Contract {
